@@ -68,7 +68,7 @@ def gen_count(rng):
     skip = rng.choice([None, 1, 1, 2, 3, 5, count, count + 1, count + 2, max(1, count - 1), max(1, count // 2)])
     src = gen_timeline(rng, n, nonconf=rng.random() < 0.15)
     d, dw = gen_dispose(rng, src)
-    return {"op": "win_count", "count": count, "skip": skip, "src": src, "dispose": d, "dw": dw}
+    return {"op": "win_count", "count": count, "skip": skip, "src": src, "dispose": d, "dw": dw, "cold": rng.random() < 0.25}
 
 
 def around(rng, src, lo=T0 + 1, hi=None):
@@ -94,7 +94,8 @@ def gen_bound(rng):
     elif r < 0.4:
         bnd.append([around(rng, src, lo=(times or [T0 + 1])[-1]), ["E", "b0"]])
     d, dw = gen_dispose(rng, src + bnd)
-    return {"op": "win_bound", "src": src, "bnd": bnd, "bfirst": rng.random() < 0.5, "dispose": d, "dw": dw}
+    return {"op": "win_bound", "src": src, "bnd": bnd, "bfirst": rng.random() < 0.5, "dispose": d, "dw": dw,
+            "cold": rng.random() < 0.25}
 
 
 def gen_closing(rng, src, after):
@@ -127,7 +128,7 @@ def gen_when(rng):
         rng.shuffle(order)
     d, dw = gen_dispose(rng, src + [m for c in closings for m in c])
     return {"op": "win_when", "src": src, "closings": closings, "order": order,
-            "raise_at": rng.choice([None] * 6 + [0, 1, 2]), "dispose": d, "dw": dw}
+            "raise_at": rng.choice([None] * 6 + [0, 1, 2]), "dispose": d, "dw": dw, "cold": rng.random() < 0.2}
 
 
 def gen_toggle(rng):
@@ -149,7 +150,7 @@ def gen_toggle(rng):
         rng.shuffle(order)
     d, dw = gen_dispose(rng, src + openings)
     return {"op": "win_toggle", "src": src, "openings": openings, "closings": closings, "order": order,
-            "raise_at": rng.choice([None] * 8 + [0, 1]), "dispose": d, "dw": dw}
+            "raise_at": rng.choice([None] * 8 + [0, 1]), "dispose": d, "dw": dw, "cold": rng.random() < 0.2}
 
 
 def gen_time(rng):
@@ -270,7 +271,35 @@ def run_real(case, buffer):
     s = TestScheduler()
     log = []
     hots = {}
+    colds = {}
     for k, tl in timelines_of(case).items():
+        if k == "0" and case.get("cold"):
+            # cold source: messages are scheduled when the operator subscribes (relative times); a logging wrapper
+            # stands in for the spy
+            import reactivex as rx
+            cold = s.create_cold_observable(*mkrec([[t - T0, n] for t, n in tl if t >= T0]))
+            colds[k] = cold
+
+            def mkwrap(cold, k):
+                def subscribe(observer, scheduler=None):
+                    def nx(v):
+                        if not buffer:
+                            log.append([int(s.clock), "A", int(k), ["N", enc(v)]])
+                        observer.on_next(v)
+
+                    def er(e):
+                        if not buffer:
+                            log.append([int(s.clock), "A", int(k), ["E", err_name(e)]])
+                        observer.on_error(e)
+
+                    def co():
+                        if not buffer:
+                            log.append([int(s.clock), "A", int(k), ["C"]])
+                        observer.on_completed()
+                    return cold.subscribe(nx, er, co, scheduler=scheduler)
+                return rx.Observable(subscribe)
+            hots[k] = mkwrap(cold, k)
+            continue
         h = s.create_hot_observable(*mkrec(tl))
         hots[k] = h
         if not buffer:
@@ -327,9 +356,11 @@ def run_real(case, buffer):
             break
         except InjectedError as e:
             esc.append([int(s.clock), e.name])
+            s.stop()      # start() left _is_enabled set; without this the restart returns at once
         except Exception as e:  # noqa: library exception escaping into the scheduler
             esc.append([int(s.clock), type(e).__name__])
-    return {"log": log, "subs": {k: fw.subs_json(h.subscriptions) for k, h in sorted(hots.items())}, "escaped": esc}
+            s.stop()
+    return {"log": log, "subs": {k: fw.subs_json((colds.get(k) or h).subscriptions) for k, h in sorted(hots.items())}, "escaped": esc}
 
 
 def impl(case):
@@ -361,8 +392,14 @@ def merged_events(case):
     so messages at time <= T0 are never seen and a dispose comes last in its instant."""
     evs = []
     for prio, (k, tl) in enumerate(timelines_of(case).items()):
+        cold = k == "0" and case.get("cold")
         for i, (t, n) in enumerate(tl):
-            if t > T0:
+            if cold:
+                # a cold source schedules its messages at subscription (T0): they come after every hot message and
+                # after the harness' dispose action of their instant, and a message due at T0 itself is delivered
+                if t >= T0:
+                    evs.append((t, PRIO_D + 1, i, [t, int(k), n]))
+            elif t > T0:
                 evs.append((t, prio, i, [t, int(k), n]))
     if case.get("dispose") is not None:
         evs.append((case["dispose"], PRIO_D, 0, [case["dispose"], "D", bool(case.get("dw", True))]))
@@ -430,7 +467,7 @@ def src_elems(case):
     """(time, value) of the source elements the operator can see: after T0, before the source's first terminal."""
     out, term = [], None
     for t, n in case["src"]:
-        if t <= T0:
+        if t < T0 or (t == T0 and not case.get("cold")):
             continue
         if n[0] == "N":
             out.append((t, n[1]))
@@ -476,7 +513,7 @@ def oracle_partition(case, log):
                 return f"window {e[2]} ended twice or while not open: {e}"
         elif e[1] == "W":
             return f"window element outside the delivery of a source arrival: {e}"
-        elif e[1] == "A" and e[2] == 0 and e[0] > T0:
+        elif e[1] == "A" and e[2] == 0 and (e[0] > T0 or case.get("cold")):
             if e[3][0] != "N":
                 src_done = True
                 continue
@@ -505,7 +542,7 @@ def oracle_end_with_source(case, log):
         elif e[1] == "W" and e[3][0] != "N":
             if e[2] in open_:
                 open_.remove(e[2])
-        elif e[1] == "A" and e[2] == 0 and e[0] > T0 and e[3][0] != "N":
+        elif e[1] == "A" and e[2] == 0 and (e[0] > T0 or case.get("cold")) and e[3][0] != "N":
             ends = {}
             for f in log[i + 1:]:
                 if f[0] != e[0] or f[1] in ("A", "D"):
@@ -564,10 +601,15 @@ def oracle_count(case, out):
     elems, term = src_elems(case)
     count, skip = case["count"], case["skip"] or case["count"]
     d, dw = case.get("dispose"), case.get("dw", True)
+    cold = case.get("cold")
+
+    def bd(t):      # "before the dispose action": a cold source's message due at the dispose instant comes after it
+        return t < d if cold else t <= d
+
     if d is not None:
         if dw:
-            elems = [e for e in elems if e[0] <= d]
-            if term and term[0] > d:
+            elems = [e for e in elems if bd(e[0])]
+            if term and not bd(term[0]):
                 term = None
     for k, w in sorted(ws.items()):
         exp = elems[k * skip: k * skip + count]
@@ -584,12 +626,12 @@ def oracle_count(case, out):
             exp_end = (term[0], term[1])
         else:
             exp_end = None
-        if d is not None and dw and exp_end and exp_end[0] > d:
+        if d is not None and dw and exp_end and not bd(exp_end[0]):
             exp_end = None
         if fw.key(w["end"] and [w["end"][0], w["end"][1]]) != fw.key(exp_end and [exp_end[0], exp_end[1]]):
             return f"window {k} ended {w['end']}, expected {exp_end}"
     # number of windows: one per k with k*skip <= number of elements seen while the outer observer is alive
-    alive = [e for e in elems if d is None or e[0] <= d]
+    alive = [e for e in elems if d is None or bd(e[0])]
     nexp = len(alive) // skip + 1
     if term is not None and (d is None or term[0] <= d) and len(alive) == len(elems):
         pass
@@ -610,7 +652,7 @@ def toggle_shape(case, log):
             open_.discard(e[2])
         elif e[1] == "D" and case.get("dw", True):
             return False
-        elif e[1] == "A" and e[2] == 0 and e[0] > T0 and e[3][0] != "N":
+        elif e[1] == "A" and e[2] == 0 and (e[0] > T0 or case.get("cold")) and e[3][0] != "N":
             return e[3][0] == "C" and bool(open_)
     return False
 
@@ -647,6 +689,10 @@ def _static_events(case):
     return [e for e in merged_events({**case, "dispose": None})]
 
 
+def _sc(case):
+    return "cold" if case.get("cold") else "hot"
+
+
 def _win(t, cause):
     return {"open": t, "ocause": cause, "items": [], "end": None}
 
@@ -663,7 +709,7 @@ def spec_bound(case):
                 ws[-1]["end"] = (t, ["C"], "hot")
                 ws.append(_win(t, "hot"))
         else:
-            ws[-1]["end"] = (t, n, "hot")
+            ws[-1]["end"] = (t, n, _sc(case) if k == 0 else "hot")
             alive = False
     return ws
 
@@ -679,7 +725,7 @@ def spec_when(case):
             if n[0] == "N":
                 ws[-1]["items"].append((t, n[1]))
             else:
-                ws[-1]["end"] = (t, n, "hot")
+                ws[-1]["end"] = (t, n, _sc(case))
                 break
         elif closing_alive and k == cur + 1:
             if n[0] == "E":
@@ -703,7 +749,7 @@ def spec_toggle(case):
                     ws[j]["items"].append((t, n[1]))
             else:
                 for j in open_:
-                    ws[j]["end"] = (t, n, "hot")
+                    ws[j]["end"] = (t, n, _sc(case))
                 return ws, t
         elif k == 1:
             if n[0] == "N":
@@ -750,7 +796,7 @@ def _toggle_rest(case, ws, open_, nopen, t0):
                     ws[j]["items"].append((t, n[1]))
             else:
                 for j in open_:
-                    ws[j]["end"] = (t, n, "hot")
+                    ws[j]["end"] = (t, n, _sc(case))
                 return ws, t
         elif k >= 2:
             j = k - 2
@@ -828,13 +874,16 @@ def oracle_rule(case, out):
     def before(t, cause):
         return d is None or (t <= d if cause in ("hot", "init") else t < d)
 
+    def item_before(t):
+        return t < d if case.get("cold") else t <= d
+
     want = []
     for w in exp:
         if not before(w["open"], w["ocause"]):
             continue
         items, end = w["items"], w["end"]
         if d is not None and dw:
-            items = [it for it in items if it[0] <= d]
+            items = [it for it in items if item_before(it[0])]
             if end and not before(end[0], end[2]):
                 end = None
         want.append({"open": w["open"], "items": [list(x) for x in items], "end": end and [end[0], end[1]]})
@@ -880,6 +929,7 @@ def nontrivial(case, out):
 
 def bucket(case, out):
     yield case["op"]
+    yield "source:" + ("cold" if case.get("cold") else "hot")
     if "hang" in out:
         yield "hang"
         return
@@ -935,7 +985,7 @@ THEOREMS = [
     "C18.buffer_eq_window_time_or_count",
 ]
 RULE = ("six window operators (with_count, boundaries, when, toggle, with_time, with_time_or_count) and their buffer twins on hot "
-        "TestScheduler timelines: 0..20 elements incl. falsy values and same-instant arrivals, count/skip 1..N with skip<count, "
+        "(and, for the untimed operators, also cold-source) TestScheduler timelines: 0..20 elements incl. falsy values and same-instant arrivals, count/skip 1..N with skip<count, "
         "=count, >count, timespan/timeshift overlapping, equal and gapped (incl. span 0), boundary / opening / closing timelines placed "
         "at and around element instants with both creation orders (both tie orders), closings that fire by next, by completion, by "
         "error or never, raising closing mappers, source C / E / no terminal / non-conforming tail, dispose at / around arrivals with "
@@ -945,7 +995,8 @@ RULE = ("six window operators (with_count, boundaries, when, toggle, with_time, 
         "and at least one element delivered to a window")
 ASSUMPTIONS = [
     "single-threaded virtual-time execution (TestScheduler); hot sources, so the global order of same-instant events is the static "
-    "(time, creation order, message index) order, with the harness' subscribe/dispose actions after the hot messages of their instant",
+    "(time, creation order, message index) order, with the harness' subscribe/dispose actions after the hot messages of their instant; "
+    "a cold source's messages (scheduled at subscription) come after both",
     "timed operators get the TestScheduler explicitly; window_toggle's right duration empty() completes synchronously (no scheduler "
     "is passed at subscription)",
     "window subscribers subscribe inside the outer on_next and do not raise",
